@@ -46,6 +46,12 @@
 (*                  its field and every string is hex)                     *)
 (*   hasheight, height   blockchain                                        *)
 (*                                                                         *)
+(* Where the bytes come from (stdin or --in-file) and go to (stdout or     *)
+(* --out-file) is not part of inv: Trace_CliCmd requires the output in the *)
+(* place the options name.  The BIP39 English word list is the literal     *)
+(* module CliCmdWords.  Not covered: send, mine, p2p, rpc (they need a     *)
+(* node), hd --dump, -L.                                                   *)
+(*                                                                         *)
 (* Dev is a set of named deviations.  "bech32-const1" reproduces a way in  *)
 (* which this kind of tool goes wrong and is switched on only by the       *)
 (* vacuity self-test of MC_CliCmd.                                         *)
@@ -244,12 +250,14 @@ ParsePath(p) ==
 
 (* m... derives private keys and needs an extended private key; M... derives public keys from an extended public key *)
 HdExpected(inv) ==
-    LET o == inv.opts  x == HD!DeserXKeyStr(inv.input)  pp == ParsePath(o.path) IN
-    IF ~x.ok \/ pp.cls # "ok" THEN Fail
-    ELSE IF pp.priv # x.v.prv THEN Fail
-    ELSE LET d == HD!Derive(x.v, pp.path) IN
-         IF ~d.ok THEN Fail
-         ELSE Ok(WithNL(HD!XKeyStr(IF o.xpub THEN HD!NeuterX(d.v) ELSE d.v), o.print))
+    LET o == inv.opts  pp == ParsePath(o.path) IN
+    IF pp.cls # "ok" THEN Fail
+    ELSE LET x == HD!DeserXKeyStr(inv.input) IN
+         IF ~x.ok THEN Fail
+         ELSE IF pp.priv # x.v.prv THEN Fail
+         ELSE LET d == HD!Derive(x.v, pp.path) IN
+              IF ~d.ok THEN Fail
+              ELSE Ok(WithNL(HD!XKeyStr(IF o.xpub THEN HD!NeuterX(d.v) ELSE d.v), o.print))
 (* open: tolerated number syntax; M... below an extended PRIVATE key (could be read as N(m...)) *)
 HdOpen(inv) ==
     LET pp == ParsePath(inv.opts.path) IN
@@ -296,11 +304,12 @@ SigExpected(inv) ==
          IF ~k.ok THEN Fail
          ELSE LET sg == AD!SigBytes(k.v, o.msg, FlagOf(o), o.preimage, o.draws) IN
               IF sg.ok THEN Ok(Wr(sg.v.sig, o.outf)) ELSE Fail
-(* open: the scripted random source ran dry (cannot happen with a real one) *)
+(* open: the scripted random source ran dry - every draw was 0 - which cannot happen with a real one.  (A non-zero *)
+(* draw that makes r or s zero is refused by Ecdsa!Sign and retried by the code; at 256 bits it does not occur.)   *)
 SigOpen(inv) ==
     LET o == inv.opts  r == Rd(inv) IN
-    r.ok /\ LET k == AD!PrivFromBytes(r.v) IN
-            k.ok /\ ~(o.preimage /\ ~AD!PreimageOk(o.msg, FlagOf(o))) /\ ~AD!SigBytes(k.v, o.msg, FlagOf(o), o.preimage, o.draws).ok
+    r.ok /\ AD!PrivFromBytes(r.v).ok /\ ~(o.preimage /\ ~AD!PreimageOk(o.msg, FlagOf(o)))
+         /\ \A i \in 1..Len(o.draws) : AD!NIsZero(o.draws[i])
 (* open (as in C02): a signature whose DER part is not strict (BIP66) - rejecting is not demanded, accepting cannot be judged *)
 SigVerifyOpen(inv) == LET o == inv.opts IN o.hassig /\ o.sig # <<>> /\ ~AD!IsStrictDER(Front(o.sig))
 ExpectedS(inv) ==
